@@ -145,7 +145,9 @@ RECURSIVE BuildImplH(_, _, _, _, _)
 BuildImplH(target, nodes, wild, m, acc) ==
   IF m > Len(nodes) THEN acc
   ELSE LET n == nodes[m]
-           tn == TypeNames(target, n.t)
+           \* (the package gives `complex` nodes of the alternative context no type: std::complex over the name of the parts' type)
+           tn == IF n.k = "complex" /\ IsAltT(n.t) /\ Len(n.a) = 2 THEN {"std::complex<" \o u \o ">" : u \in TypeNames(target, nodes[n.a[1]].t)}
+                 ELSE TypeNames(target, n.t)
            ps == IF n.k \in {"symbol", "constant"} THEN {}
                  ELSE IF n.k = "constant_alt" THEN (IF target = "xla_client" THEN {P(o, <<H(1)>>) : o \in ScalarLikeOps} ELSE {})
                  ELSE IF IsAltT(n.t) THEN
@@ -189,15 +191,26 @@ KindOfDir(o) == CASE o = "sx:StableHLO_CompareOp<LT>" -> "lt" [] o = "sx:StableH
                   [] o = "sx:StableHLO_CompareOp<GT>" -> "gt" [] o = "sx:StableHLO_CompareOp<GE>" -> "ge"
                   [] o = "sx:StableHLO_CompareOp<EQ>" -> "eq" [] o = "sx:StableHLO_CompareOp<NE>" -> "ne" [] OTHER -> ""
 \* an `operator` failure of a CompareOp whose direction is the kind of no node: the direction is wrong
+\* ... and of an attached constant whose value expression is not one the spec can read: the value is wrong
 Reclass(nodes, prog, x) ==
   IF x[1] = "operator" /\ x[2] > 0 /\ HasPrefix(prog.rows[x[2]].o, 23, "sx:StableHLO_CompareOp<")
      /\ ~\E m \in 1..Len(nodes) : nodes[m].k = KindOfDir(prog.rows[x[2]].o)
-  THEN <<"comparison_direction", x[2], x[3]>> ELSE x
+  THEN <<"comparison_direction", x[2], x[3]>>
+  ELSE IF x[1] = "operator" /\ x[2] > 0 /\ IsAttach(prog.rows[x[2]].o) THEN <<"constant_value", x[2], x[3]>>
+  ELSE x
+\* a failing attached constant is reported once: the failures inside its value expression (text that is no C++
+\* expression - row "opaque" -, operators the constant context does not have) are not reported by themselves
+RECURSIVE FirstRow(_, _)
+FirstRow(rows, j) == IF rows[j].a = <<>> THEN j ELSE FirstRow(rows, rows[j].a[1])
+Reported(prog, fails, x) ==
+  /\ ~(x[2] > 0 /\ prog.rows[x[2]].o = "opaque")
+  /\ ~\E y \in fails : /\ y[2] > 0 /\ x[2] > 0 /\ x[2] < y[2] /\ IsAttach(prog.rows[y[2]].o) /\ prog.rows[y[2]].a # <<>>
+                        /\ x[2] >= FirstRow(prog.rows, prog.rows[y[2]].a[1])
 
 \* Verdict of the machine on a program of an HLO target
 RunProgramH(target, nodes, root, wild, prog) ==
   LET impl == BuildImplH(target, nodes, wild, 1, <<>>)
       cx == Context(target, nodes, impl, prog)
-      run == Verdict(cx, DenAllH(cx, [ds |-> <<>>, pf |-> <<>>], 1), root)
-  IN  [ds |-> run.ds, fails |-> {Reclass(nodes, prog, x) : x \in run.fails}]
+      run == ProgramVerdict(cx, DenAllH(cx, [ds |-> <<>>, pf |-> <<>>], 1), root)
+  IN  [ds |-> run.ds, fails |-> {Reclass(nodes, prog, x) : x \in {y \in run.fails : Reported(prog, run.fails, y)}}]
 =============================================================================
